@@ -71,7 +71,7 @@ def schema_c10(rng, idx):
         {"name": "nd", "attrs": [("name", "str", None), ("nxt", "optref", "nd")]},
         {"name": "grp", "attrs": [("lbl", "str", None), ("items", "listref", "nd"), ("k", "int", None)]},
         {"name": "base", "andor": ["sa", "sb"], "attrs": [("a", "int", None)]},
-        {"name": "sa", "sup": "base", "attrs": [("r", "optref", "nd")]},
+        {"name": "sa", "sup": "base", "attrs": [("r", "optref", "nd"), ("t", "optstr", None)]},
         {"name": "sb", "sup": "base", "attrs": [("s", "str", None), ("q", "optref", "grp")]},
     ]
     # a few random extra entities
@@ -119,9 +119,16 @@ def schema_c11(rng, idx, ninv=None, complex_ref=False):
 STR_ALPHA = ["a", "b", "Z", "0", "7", " ", "#", "#1", "#23", "(", ")", ";", "''", "/*", "*/", "=", ",", "$", "*", "/", "#)", ");", "\n"[:0]]
 
 
-def rand_string(rng, plain=False):
+PAREN_ALPHA = ["(", ")", "(", ")", ";", "#", "#2", "''", "a", " ", "((", "))", ")(", "(;", "')'"[1:2], ","]
+
+
+def rand_string(rng, plain=False, parens=False):
+    """parens=True: mostly `(` `)` `;` `#` `''`, balanced or not (used inside the parts of complex instances, where a
+    reader that counts parentheses by hand instead of skipping string literals goes wrong)"""
     if plain:
         return "".join(rng.choice("abcxyz") for _ in range(rng.randint(0, 4)))
+    if parens:
+        return "".join(rng.choice(PAREN_ALPHA) for _ in range(rng.randint(1, 4)))
     return "".join(rng.choice(STR_ALPHA) for _ in range(rng.randint(0, 7)))
 
 
@@ -153,6 +160,7 @@ def population(rng, s, n, cyc=0.5, plain_strings=False, maxid=None):
         parts = []
         shape = x["shape"]
         complex_ = len(shape) > 1
+        heavy = complex_ and not plain_strings and rng.random() < 0.6
         for p in sorted(shape) if complex_ else shape:
             attrs = ent(s, p)["attrs"] if complex_ else [(n_, k_, t_) for (_, n_, k_, t_) in all_attrs(s, p)]
             vals = []
@@ -162,9 +170,9 @@ def population(rng, s, n, cyc=0.5, plain_strings=False, maxid=None):
                 if cyc == 0:
                     pool = of_type(tgt, k)
                 if kind == "str":
-                    vals.append(("str", rand_string(rng, plain_strings)))
+                    vals.append(("str", rand_string(rng, plain_strings, heavy)))
                 elif kind == "optstr":
-                    vals.append(("str", rand_string(rng, plain_strings)) if rng.random() < 0.6 else ("null",))
+                    vals.append(("str", rand_string(rng, plain_strings, heavy)) if (heavy or rng.random() < 0.6) else ("null",))
                 elif kind == "int":
                     vals.append(("int", rng.randint(-99, 999)))
                 elif kind == "ref":
